@@ -570,7 +570,8 @@ impl Check for PrefixCheck {
                 Op::Fill(v, n, from) => {
                     let p = &prefixes[*v];
                     let all = small_keys();
-                    let (from, n) = ((*from).min(all.len()), (*n).min(all.len()));
+                    // (under a very long prefix - segments of up to 65535 bytes - a few entries do: every key carries the whole prefix)
+                    let (from, n) = ((*from).min(all.len()), (*n).min(if p.len() > 1024 { 3 } else { all.len() }));
                     let chosen: Vec<Vec<u8>> = all.iter().skip(from).take(n).cloned().collect();
                     {
                         let mut st = open_rw(&mut app, &case.paths[*v], case.single[*v]);
